@@ -111,6 +111,7 @@ def run_case(spec):
         from vlib import pygen, pyrun
         case.seed, case.profile, case.root = spec["pseed"], "binding", tmp + "/p"
         unique = bool(spec.get("unique"))
+        ukey = "unique-names" if spec.get("unique") == 1 else "unique-names+class-attribute-spelled-like-global"
         case.files, case.gen = pygen.generate(spec["pseed"], "binding", p_fstring=0.05, p_star_import=0.03, p_kwonly=0.1,
                                               p_varargs=0.1, p_kwargs=0.15, p_kw_like_var=0.6, p_dunder_call=0.3,
                                               unique_names=int(spec.get("unique") or 0))
@@ -267,7 +268,7 @@ def run_case(spec):
 
                 def viol(clause, what, **kw):
                     key = f"occurrences|hostile:{label}" if label else (
-                        f"occurrences|{clause}|{'unique-names' if unique else 'core'}|role={role}")
+                        f"occurrences|{clause}|{ukey if unique else 'core'}|role={role}")
                     res.violation(key, what, file=path, offset=offset, name=old, clause=clause, pseed=spec["pseed"],
                                   line=text[text.rfind("\n", 0, offset) + 1:text.find("\n", offset)], **kw)
 
